@@ -181,3 +181,50 @@ Definition sem_spec (ts : list term) : req :=
   | t :: ts' => fold_left (fun acc t' => add_req acc (sem_term t')) ts' (sem_term t)
   end.
 Definition sem_expr (e : list (list term)) : list req := map sem_spec e.
+
+(* ---- LauncherRegistry.find (registry.py l.139-176) ---------------------
+   The registry turns its arguments into a list of specs (a string gives one
+   simple requirement per alternative, parse(); an object is taken as it is)
+   and hands them, one at a time and in order, to the find_launcher function
+   of launchers.py.  The find_launcher functions of the documentation and of
+   tests/launchers go through their hosts in order and answer with the first
+   host the requirement they were given matches.                             *)
+
+(* find_launcher(spec): spec is a simple requirement ([r]) or a RequirementUnion
+   object; answer = (alternative chosen inside spec, index of the host)        *)
+Fixpoint launcher_fn (spec : list req) (hs : list host) (j : nat) : option (nat * nat) :=
+  match hs with
+  | [] => None
+  | h :: hs' => match union_match spec h with
+                | Some (k, _) => Some (k, j)
+                | None => launcher_fn spec hs' (S j)
+                end
+  end.
+
+(* for spec in specs: if launcher := find_launcher_fn(spec): return launcher
+   off = number of alternatives in the specs already tried                      *)
+Fixpoint registry_go (specs : list (list req)) (hs : list host) (off : nat) : option (nat * nat) :=
+  match specs with
+  | [] => None
+  | s :: ss => match launcher_fn s hs 0 with
+               | Some (k, j) => Some ((off + k)%nat, j)
+               | None => registry_go ss hs (off + length s)%nat
+               end
+  end.
+
+Definition singletons (rs : list req) : list (list req) := map (fun r => [r]) rs.
+
+(* an argument of find(): its alternatives, and whether it is one RequirementUnion
+   object (built with |) rather than a string or a simple requirement            *)
+Definition arg := (bool * list req)%type.
+Definition all_alts (args : list arg) : list req := concat (map snd args).
+
+(* every alternative is a spec of its own, in the order given *)
+Definition registry_find (args : list arg) (hs : list host) : option (nat * nat) :=
+  registry_go (singletons (all_alts args)) hs 0.
+(* literal reading of registry.py: a RequirementUnion object stays one spec *)
+Definition registry_find_objects (args : list arg) (hs : list host) : option (nat * nat) :=
+  registry_go (flat_map (fun a : arg => if fst a then [snd a] else singletons (snd a)) args) hs 0.
+(* all alternatives wrapped in one union handed to find_launcher once: each host, then each alternative *)
+Definition registry_find_hostfirst (args : list arg) (hs : list host) : option (nat * nat) :=
+  registry_go [all_alts args] hs 0.
